@@ -26,10 +26,10 @@ ASSUMPTIONS = ["the digest covers what the statement lists; wall-clock output of
 REQUIRED = {
     "quick": {"in_process_pairs": 24, "child_processes_compared": 8, "class/correlated_fundamentals": 8,
               "class/all_builtin_event_classes": 8, "class/nontrivial_run": 16, "different_seed_pairs": 10,
-              "settings_objects_compared": 24, "near_twin_runs_before": 1},
+              "settings_objects_compared": 24, "near_twin_runs_before": 1, "refused_runs_before": 4},
     "thorough": {"in_process_pairs": 500, "child_processes_compared": 300, "class/correlated_fundamentals": 200,
                  "class/all_builtin_event_classes": 200, "class/nontrivial_run": 400, "different_seed_pairs": 200,
-                 "settings_objects_compared": 500, "near_twin_runs_before": 30},
+                 "settings_objects_compared": 500, "near_twin_runs_before": 30, "refused_runs_before": 100},
 }
 CASE_TIMEOUT_S = 600
 SHARDS = {"quick": 16, "thorough": 16}
@@ -194,6 +194,26 @@ class GlobalRngTripwire:
             setattr(random if mod == "random" else np.random, n, o)
 
 
+def child_digest(config, seed, hashseed):
+    d = tempfile.mkdtemp(prefix="pamsmon-c07c-")
+    try:
+        path = os.path.join(d, "case.json")
+        with open(path, "w") as f:
+            json.dump({"drive": "runner", "seed": seed, "config": config}, f)
+        env = dict(os.environ, PYTHONHASHSEED=hashseed, PYTHONPATH=VERIF)
+        try:
+            r = subprocess.run([PY, "-m", "pamsmon.digest", path], env=env, cwd=VERIF, capture_output=True, text=True, timeout=300)
+        except subprocess.TimeoutExpired:
+            return None
+        if r.returncode != 0:
+            return None
+        return json.loads(r.stdout.strip().splitlines()[-1])
+    finally:
+        import shutil
+
+        shutil.rmtree(d, ignore_errors=True)
+
+
 def unrelated_run(seed):
     from ..runnerdrive import gen_runner_case, run_runner_case
 
@@ -208,6 +228,16 @@ def run_case(case, res):
     taps.install()
     settings = copy.deepcopy(case["config"])
     pristine = copy.deepcopy(settings)
+    if case.get("children"):
+        # an earlier run in the same process that is REFUSED (a typo in an inherited block's name): the refusal
+        # must not leave anything behind that changes the outcome of the valid run
+        broken = copy.deepcopy(pristine)
+        broken["MarketBaze"] = broken.pop("MarketBase")
+        _, _, outb = run_digest(dict(case, config=broken))
+        if outb.error is not None:
+            res.count("refused_runs_before")
+        else:
+            res.count("broken_configuration_was_not_refused(see C18)")
     if case.get("individual") and case.get("children"):
         # an earlier, different-but-similar run in the same process (its outcome is irrelevant)
         try:
@@ -220,7 +250,13 @@ def run_case(case, res):
     with GlobalRngTripwire() as tw:
         d1, st1, out1 = run_digest(case, settings_obj=settings)
     if out1.error is not None:
-        res.inconc("kitchen-sink configuration aborted: %r %s" % (out1.error, (out1.tb or "")[-500:]))
+        # does the same configuration run in a fresh process? then the failure here is caused by what ran before
+        fresh = child_digest(pristine, case["seed"], "0")
+        if fresh is not None and fresh["error"] is None:
+            res.violation("repro", "valid-run-fails-after-an-earlier-run-in-the-same-process",
+                          {"error_in_process": repr(out1.error), "fresh_process": "ran normally", "tb": (out1.tb or "")[-600:]})
+        else:
+            res.inconc("kitchen-sink configuration aborted: %r %s" % (out1.error, (out1.tb or "")[-500:]))
         return
     res.count("settings_objects_compared")
     if settings != pristine:
